@@ -122,22 +122,17 @@ mutual
     separates two children is the first ngram of the right child's first bucket. Returns the next bucket number. -/
 def BT.covers (h : Nat) (ngs : List Nat) : BT → Nat → Option Nat
   | .leaf bi po _ _, lo => if bi = lo ∧ po = lo * h then some (lo + 1) else none
-  | .inner keys ch, lo => BTs.covers h ngs keys ch lo true
-/-- `first`: no separator precedes the first child -/
-def BTs.covers (h : Nat) (ngs : List Nat) : List Nat → BTs → Nat → Bool → Option Nat
-  | [], .nil, lo, first => if first then none else some lo
-  | _ :: _, .nil, _, _ => none
-  | keys, .cons c rest, lo, true =>
+  | .inner keys ch, lo => BTs.covers h ngs keys ch lo
+/-- children from bucket `lo` on; `keys` are the separators that follow each child but the last -/
+def BTs.covers (h : Nat) (ngs : List Nat) : List Nat → BTs → Nat → Option Nat
+  | _, .nil, _ => none
+  | [], .cons c .nil, lo => c.covers h ngs lo
+  | [], .cons _ (.cons _ _), _ => none
+  | k :: ks, .cons c rest, lo =>
     match c.covers h ngs lo with
     | none => none
-    | some hi => BTs.covers h ngs keys rest hi false
-  | [], .cons _ _, _, false => none
-  | k :: ks, .cons c rest, lo, false =>
-    if k = ngs.getD (lo * h) 0 ∧ lo * h < ngs.length then
-      match c.covers h ngs lo with
-      | none => none
-      | some hi => BTs.covers h ngs ks rest hi false
-    else none
+    | some mid =>
+      if k = ngs.getD (mid * h) 0 ∧ mid * h < ngs.length then BTs.covers h ngs ks rest mid else none
 end
 
 /-- the whole frozen tree is a search tree over `ngs` -/
